@@ -108,12 +108,12 @@ class SSCChart(BaseChart):
 
     def serialize(self, file):
         file.write(f"{MSDParameter(('NOTEDATA', ''))}\n")
-        notes_key = "NOTES"
+        # Same key the `notes` property reads: NOTES, or its alias NOTES2
+        notes_key = "NOTES2" if "NOTES" not in self and "NOTES2" in self else "NOTES"
 
         for (key, value) in self.items():
             # Either NOTES or NOTES2 must be the last chart property
-            if value is self.notes:
-                notes_key = key
+            if key == notes_key:
                 continue
             if key in BaseSimfile.MULTI_VALUE_PROPERTIES:
                 param = MSDParameter((key, *value.split(":")))
